@@ -145,6 +145,50 @@ CLAIMED = {
              "implementation. Known findings: C20-text-half-even, C20-text-double-dot-keyerror.",
         design_ref="DESIGN.md 5 C20",
     ),
+    'C14': dict(
+        technique="Coq proof over models regenerated from excellib.py / lib/stats.py / excelformula.py by the "
+                  "Python-AST translator (_numerics, sum_, average, count, max_, min_, the SUBTOTAL_FUNCS table), a "
+                  "hand-written model of sumproduct and of the SUBTOTAL dispatch on top of them, "
+                  "extracted-model/implementation differential run (functions and real formulas on openpyxl "
+                  "workbooks) and the property's oracle on the implementation",
+        text="Machine-checked (Coq 8.16, 17 theorems in coq/Props/C14.v, all closed under the global context), for "
+             "ALL argument lists (any number of ranges/scalars of any size and nesting whose cells are blank, "
+             "logical, int, float or text), over Gen/aggregates.v (_numerics, sum_) and Gen/stats.v (average, "
+             "count, max_, min_), which are re-translated from the source on every run, with exact numbers "
+             "(int = Z, float = Q; results compared as rationals). FULL: C14_numeric_only (without an error cell "
+             "SUM / COUNT / AVERAGE / MAX / MIN are the sum / number / quotient / an attained upper bound / an "
+             "attained lower bound of exactly the VInt-VFloat cells: text, numeric text, logicals, blanks "
+             "ignored), C14_depends_only (results are a function of the first error and the numeric sub-list "
+             "only), C14_first_error (SUM, AVERAGE, MAX, MIN return the first error cell in row-major order of "
+             "the arguments; C14_error_codes: the seven Excel codes are recognised), C14_count (COUNT = number of "
+             "numeric cells whatever else the range holds), C14_perm (Permutation of the cells with equal first "
+             "error -> equal results up to numeric value, all five aggregates), C14_reshape (equal flattening -> "
+             "identical results), C14_additive (SUM(l1 ++ l2) = SUM l1 + SUM l2 without errors), C14_average "
+             "(= SUM / COUNT; #DIV/0! iff no numeric cell), C14_minmax_empty (MIN = MAX = 0 when nothing "
+             "numeric) and C14_minmax_attained. Over the hand-written Model/Aggregates.v (tied by the "
+             "differential run only): C14_sumproduct (any number of equally shaped rectangles of scalar cells, "
+             "no error: the result is the sum over positions of the product over ranges with non-numbers as 0), "
+             "C14_sumproduct_two (two ranges: dot product), C14_sumproduct_first_error, C14_sumproduct_unequal "
+             "(#VALUE!), C14_subtotal (SUBTOTAL with literal 1/2/4/5/9 and 101/102/104/105/109 IS the generated "
+             "average/count/max_/min_/sum_: the name comes from the generated table through the generated "
+             "coerce_to_number, the name->function binding is Model/Aggregates.v named_aggregate), "
+             "C14_subtotal_domain (sweep of literals 0..120: exactly those ten resolve to the five aggregates). "
+             "REFUTED (advisory, coq/Refuted/C14_count_error.v): the property's 'first error' clause for COUNT "
+             "— count over [1, #N/A] is 1 (known finding C14-count-ignores-errors); C14_first_error therefore "
+             "covers SUM/AVERAGE/MAX/MIN only. Not modelled: numpy int64 wrap-around in SUMPRODUCT (the model's "
+             "integers are unbounded; known finding C14-sumproduct-int64-wrap is produced by the oracle alone), "
+             "IEEE rounding (inputs of the differential run are float-exact), ragged/nested/zero-column "
+             "arguments of sumproduct (Unmodelled), hidden rows in SUBTOTAL (not implemented by pycel). "
+             "Correspondence-only: that formulas reach the functions with the values modelled here — a sample of "
+             "cases per run goes through =SUM/AVERAGE/COUNT/MAX/MIN/SUBTOTAL/SUMPRODUCT cells of real openpyxl "
+             "workbooks compiled by ExcelCompiler (1x1 ranges arrive as scalars: known finding "
+             "C14-sumproduct-blank-single-cell). Quick run: ~75k evaluations (3000 argument lists x 5 aggregates "
+             "+ _numerics with both keep_bools, each list again permuted/partitioned/reshaped; 9000 SUMPRODUCT "
+             "calls on 1-3 equal rectangles of all 25 shapes up to 5x5, 1450 unequal-shape, 800 scalar/mixed, "
+             "300 beyond-int64 probes; 39 SUBTOTAL literals; 250 workbooks x 24 formulas), ~77k model calls "
+             "compared bit for bit, 0 divergences.",
+        design_ref="DESIGN.md 5 C14",
+    ),
 }
 
 NOT_YET = "check not built yet in this round (planned: DESIGN.md section 7 lists the build order)"
